@@ -215,8 +215,15 @@ class FnWorld:
         orig_resolve = tmod.MultiTypeMap.resolve
         counter = self.nres = [0]
 
+        self.rkeys = []
+        self.cur_ov = None
+
         def counting_resolve(mm, key):
             counter[0] += 1
+            try:
+                self.rkeys.append(self.canon_key(key))
+            except Exception:  # noqa
+                self.rkeys.append(("?", counter[0], id(key)))
             return orig_resolve(mm, key)
 
         tmod.MultiTypeMap.resolve = counting_resolve
@@ -225,6 +232,23 @@ class FnWorld:
         finally:
             RANK["fn"] = None
             tmod.MultiTypeMap.resolve = orig_resolve
+
+    def canon_key(self, key):
+        """the resolved key as the generated entry point would key the same arguments: at a position the entry point
+        keys by type(x), a component type[X] (what subtler_type gives for a class-valued argument) stands for
+        type(X).  Which positions those are is asked of the library's own argument analysis."""
+        import typing
+
+        an = getattr(self.cur_ov, "argument_analysis", None)
+        out = []
+        for i, c in enumerate(key):
+            slot = i
+            if isinstance(c, tuple):
+                slot, c = c
+            if an is not None and an.lookup_for(slot) is type and typing.get_origin(c) is type:
+                c = type(typing.get_args(c)[0])
+            out.append((slot, id(c)))
+        return tuple(out)
 
     def _run(self, Ovld, call_next, recurse):
         sc = self.sc
@@ -258,6 +282,7 @@ class FnWorld:
             glb[f"C{i}"] = v
         self.glb = glb
         ov = Ovld(allow_replacement=sc.get("allowReplacement", True))
+        self.cur_ov = ov
         fns = {}
         for i, d in enumerate(sc["defs"]):
             fns[i] = self.build_fn(d, glb)
@@ -268,6 +293,7 @@ class FnWorld:
             del self.accepts[:]
             depth[0] = 0
             self.nres[0] = 0
+            del self.rkeys[:]
             preds0 = sum(self.w.pred_calls)
             try:
                 if op[0] == "reg":
@@ -287,7 +313,7 @@ class FnWorld:
                     else:
                         r = f(*pos, **kw)
                     o = ["ran", r[1]] if isinstance(r, tuple) and r and r[0] == "ret" else ["returned", repr(r)[:100]]
-                    out.append({"o": o, "t": self.canon_log(), "nres": self.nres[0], "npred": sum(self.w.pred_calls) - preds0, "raw": [list(e) for e in log], "acc": [list(a) for a in self.accepts]})
+                    out.append({"o": o, "t": self.canon_log(), "nres": self.nres[0], "rkeys": list(self.rkeys), "npred": sum(self.w.pred_calls) - preds0, "raw": [list(e) for e in log], "acc": [list(a) for a in self.accepts]})
             except Exception as e:  # noqa
                 k = kind_of_exc(e)
                 if op[0] == "call":
